@@ -26,7 +26,23 @@ def ll_periodic(x):
     return 2.0 * math.cos(2 * math.pi * (x[0] + 5.0) / 10.0) - 0.5 * float(x[1] ** 2) / S ** 2
 
 
+def ll_half(x):
+    # zero likelihood on half of the prior support (not at the cube boundary)
+    return -np.inf if x[0] < 0.0 else -0.5 * float(np.sum(x ** 2)) / S ** 2
+
+
+RHO = 0.9
+_PREC = np.linalg.inv(np.array([[1.0, RHO], [RHO, 1.0]]) * S ** 2)
+
+
+def ll_corr(x):
+    # strongly correlated Gaussian: the fitted scale matrices are far from diagonal
+    return -0.5 * float(x @ _PREC @ x)
+
+
 TARGETS = {
+    "corr": dict(like=ll_corr, logz=math.log(2 * math.pi * S ** 2 * math.sqrt(1 - RHO ** 2) / 100.0), mean1=0.0, var1=S ** 2, kw={}),
+    "half": dict(like=ll_half, logz=math.log(0.5 * 2 * math.pi * S ** 2 / 100.0), mean1=0.0, var1=S ** 2, kw={}),
     "interior": dict(like=ll_interior, logz=math.log(2 * math.pi * S ** 2 / 100.0), mean1=0.0, var1=S ** 2, kw={}),
     "edge": dict(like=ll_edge, logz=math.log(2 * math.pi * S ** 2 / 200.0), mean1=0.0, var1=S ** 2, kw={}),
     "periodic": dict(like=ll_periodic, logz=None, mean1=0.0, var1=S ** 2, kw={"periodic": [0]}),
@@ -46,7 +62,8 @@ def one(a):
         x, w, l = s.posterior(trim_importance_weights=False)
         m = np.sum(w[:, None] * x, axis=0)
         v = np.sum(w[:, None] * (x - m) ** 2, axis=0)
-        return dict(ok=True, logz=float(s.evidence()[0]), mean=m.tolist(), var=v.tolist())
+        return dict(ok=True, logz=float(s.evidence()[0]), mean=m.tolist(), var=v.tolist(),
+                    cov01=float(np.sum(w * (x[:, 0] - m[0]) * (x[:, 1] - m[1]))))
     except Exception as e:
         return dict(ok=False, err=f"{type(e).__name__}: {e}")
 
